@@ -482,6 +482,11 @@ func orcScalar(attrs map[string]any, path ...string) (string, bool) {
 // IDs. dropLabel is used for anonymous objects whose default label is their ID.
 func (s *orcSnap) objContent(i int, dropLabel bool, drop ...[]string) string {
 	o := s.Objs[i]
+	if lv, _ := orcScalar(o.Attrs, "label"); strings.EqualFold(lv, o.IDVal) {
+		// a label that defaults to the ID is spelled like the ID's first reference, which an
+		// edit may legitimately change (see orcUnchanged): not an attribute of its own
+		dropLabel = true
+	}
 	if dropLabel {
 		drop = append(drop, []string{"label"})
 	}
